@@ -31,11 +31,13 @@ def fresh_interpreter():
     return _IT
 
 
-def impl_compare(t, a, b):
-    """COMPARE a b through the real interpreter: -1/0/1, or a string describing the failure."""
+def impl_compare(t, a, b, rng=None):
+    """COMPARE a b through the real interpreter: -1/0/1, or a string describing the failure.
+    With rng: the two literals are written in a randomly chosen equivalent notation."""
     it = fresh_interpreter()
     ts = V.type_src(t)
-    code = f'PUSH {ts} {V.value_src(b)}; PUSH {ts} {V.value_src(a)}; COMPARE'
+    sa, sb = (V.variant_src(rng, t, a), V.variant_src(rng, t, b)) if rng is not None else (V.value_src(a), V.value_src(b))
+    code = f'PUSH {ts} {sb}; PUSH {ts} {sa}; COMPARE'
     ok, r = lib.call(it.execute, code)
     if not ok:
         return f'raised {type(r).__name__}: {r}'[:200], code
@@ -242,7 +244,7 @@ def run(ctx: lib.Ctx) -> None:
     cases, meta = [], []
     law = None
     for kind, t, a, b in triples:
-        got, code = impl_compare(t, a, b)
+        got, code = impl_compare(t, a, b, rng if kind != 'directed' and not cls_empty_ep(t, a, b) else None)
         want = V.spec_cmp(t, a, b)
         law = law or V.texts_respect_order([a, b])
         ctx.case((t, V.canon(a), V.canon(b)), nontrivial=(V.canon(a) != V.canon(b) and a[0] == b[0]),
